@@ -126,15 +126,27 @@ func Gen() *rapid.Generator[Src] {
 			return Src{Text: s, Canon: s, Class: "url"}
 		case 9:
 			// scp-style
-			user := rapid.SampledFrom([]string{"git", "user", "me"}).Draw(t, "user")
-			host := rapid.SampledFrom([]string{"github.com", "example.org", "host"}).Draw(t, "host")
+			// [user@]host:path - the user part is optional in scp syntax; hosts include addresses and
+			// names that begin with a digit or a hyphen (which cannot be mistaken for a URL scheme)
+			user := rapid.SampledFrom([]string{"git@", "user@", "me@", "", ""}).Draw(t, "user")
+			host := rapid.SampledFrom([]string{"github.com", "example.org", "host", "10.0.0.1", "127.0.0.1", "1and1.example.com", "3scale.net", "-internal.example", "9"}).Draw(t, "host")
 			p := genName(t, "o") + "/" + genName(t, "r")
+			switch rapid.IntRange(0, 3).Draw(t, "scppath") {
+			case 0:
+				p = genName(t, "r")
+			case 1:
+				p = genName(t, "o") + "/" + genName(t, "m") + "/" + genName(t, "r")
+			}
 			if rapid.Bool().Draw(t, "dotgit") {
 				p += ".git"
 			}
 			ref, _ := maybeRef(t)
-			s := user + "@" + host + ":" + p + ref
-			return Src{Text: s, Canon: s, Class: "scp"}
+			s := user + host + ":" + p + ref
+			cls := "scp"
+			if user == "" {
+				cls = "scp-without-user"
+			}
+			return Src{Text: s, Canon: s, Class: cls, Tricky: user == ""}
 		case 10:
 			// drive-letter paths
 			drive := rapid.SampledFrom([]string{"C:", "c:", "D:", "Z:"}).Draw(t, "drive")
